@@ -1,6 +1,7 @@
 import IGVerif.Props.Ties
 import IGVerif.Proofs.ComboBraceParse
 import IGVerif.Proofs.ComboBraceNorm
+import IGVerif.Proofs.HeaderMain
 /-! C02 — nested statements and their combinations attach where and how they are written.
 
 The statement-level parser is modelled by its specification (`denote`, Spec/Grammar.lean) and
@@ -124,5 +125,46 @@ theorem brace_scan_records_the_written_tree (t : Combo.BT) (hb : Combo.BOk t) (c
 /-- the side conditions hold for `{Cac{A(a) I((b [AND] c))} [OR] Cac{A(d) I(e)}}` -/
 example : Combo.BOk (.op .OR (.one (str "Cac") (str "A(a) I((b [AND] c))")) (.one (str "Cac") (str "A(d) I(e)"))) := by
   refine .op _ _ _ (.one _ _ ?_ ?_ ?_ ?_ ?_) (.one _ _ ?_ ?_ ?_ ?_ ?_) <;> simp [Combo.BPlain, str] <;> decide
+
+/-! ### Under which component type a nested statement is attached
+
+`parseNestedStatements` / `parseNestedStatementCombination` hand the text in front of the opening
+brace to `extractComponentType` (modelled in `Model/Header.lean`, tied by the `ctype` stream through
+the hook `VerifExtractComponentType`). -/
+
+/-- (T) the table the model walks is `tree.IGComponentSymbols` as it stands in the source now -/
+theorem component_symbol_table : Gen.componentSymbols.map String.toList = Header.table := by decide
+
+/-- the nesting-capable symbols of the specification are headers the two theorems below speak about:
+    a root of the table, followed by the property marker for the property variants -/
+theorem nestable_symbols_covered :
+    Sym.nestables.all (fun s => Header.roots.contains s.name ||
+      Header.propRoots.any (fun r => s.name == r ++ Header.marker)) = true := by decide
+
+/-- **a nested component whose header is a component symbol with any suffix and any annotation
+    (`Cac{`, `Bdir1{`, `Cex12[ctx=time]{`) is attached under exactly that component type, and is
+    not taken for a property** — for every symbol of the table, every digit string, every annotation -/
+theorem nested_header_type (r : Str) (hr : r ∈ Header.roots) (d anno : Str) (hd : ∀ c ∈ d, c.isDigit = true)
+    (ha : anno = [] ∨ ∃ t, anno = '[' :: t) :
+    Header.extractType (Gen.componentSymbols.map String.toList) (r ++ d ++ anno) = .ok r false := by
+  rw [component_symbol_table]; exact Header.header_type_plain r hr d anno hd ha
+
+/-- **a nested property (`A,p{`, `Bdir1,p{`, `Bdir1,p2[k=v]{`, `P,p3{`) is attached as the property
+    variant of its component**, whatever the primary and secondary suffixes and the annotation are;
+    the annotation may itself contain symbols or the property marker (it is cut before the search) -/
+theorem nested_property_header_type (r : Str) (hr : r ∈ Header.propRoots) (d1 d2 anno : Str)
+    (hd1 : ∀ c ∈ d1, c.isDigit = true) (hd2 : ∀ c ∈ d2, c.isDigit = true) (ha : anno = [] ∨ ∃ t, anno = '[' :: t) :
+    Header.extractType (Gen.componentSymbols.map String.toList) (r ++ d1 ++ Header.marker ++ d2 ++ anno)
+      = .ok (r ++ Header.marker) true := by
+  rw [component_symbol_table]; exact Header.header_type_property r hr d1 d2 anno hd1 hd2 ha
+
+/-- the hypotheses are met by `Bdir12,p3[ref=1,part=2]`, and the answer is computed as stated -/
+example : Header.extractType Header.table (str "Bdir12,p3[ref=1,part=2]") = .ok (str "Bdir,p") true := by decide
+example : (str "Bdir") ∈ Header.propRoots ∧ (∀ c ∈ str "12", c.isDigit = true) := by decide
+
+/-- two different components in one header are refused (`MULTIPLE_COMPONENTS_FOUND`), a header
+    without any symbol too (`COMPONENT_NOT_FOUND`) — concrete instances, tests of the model only -/
+example : Header.extractType Header.table (str "CacBdir") = .multiple (str "Bdir") false := by decide
+example : Header.extractType Header.table (str "xyz1") = .notFound false := by decide
 
 end IGVerif.C02
